@@ -321,7 +321,7 @@ def run(chk, replay=None):
     # ---- property oracle on the implementation ---------------------------------------------------
     for c, r in zip(cases, impl):
         kinds[c["kind"]] = kinds.get(c["kind"], 0) + 1
-        small = {"suite": "sync", "case": {"kind": c["kind"], "nodes": c["nodes"], "ops": c["ops"]}}
+        small = {"suite": "sync", "case": {"kind": c["kind"], "nodes": c["nodes"], "ops": c["ops"], "dead": c.get("dead")}}
         if r.get("r") != "ok" or r.get("errors"):
             chk.violation("sync suite failed on a script: %s" % str(r)[:200], small, True)
             continue
